@@ -33,10 +33,16 @@ pub fn assert_layout() {
 }
 
 pub fn run_history(h: &History) -> HistoryResult {
-    run_history_with(h, shadow::DEFAULT_GIANT_LIMIT)
+    run_history_with(h, shadow::DEFAULT_GIANT_LIMIT, None)
 }
 
-pub fn run_history_with(h: &History, giant_limit: usize) -> HistoryResult {
+/// Runs the history until a failure of `prop` (or a failure after which the state cannot be
+/// trusted); failures of other properties that leave the state usable do not stop it.
+pub fn run_history_for(h: &History, prop: &str) -> HistoryResult {
+    run_history_with(h, shadow::DEFAULT_GIANT_LIMIT, Some(prop))
+}
+
+pub fn run_history_with(h: &History, giant_limit: usize, stop_prop: Option<&str>) -> HistoryResult {
     silence_panics();
     shadow::with(|hp| {
         hp.begin_case();
@@ -54,7 +60,11 @@ pub fn run_history_with(h: &History, giant_limit: usize) -> HistoryResult {
         for f in res.failures {
             failures.push((i, f));
         }
-        if res.fatal || !failures.is_empty() {
+        let stop = match stop_prop {
+            None => !failures.is_empty(),
+            Some(p) => failures.iter().any(|(_, f)| f.property() == p),
+        };
+        if res.fatal || stop {
             fatal = true;
             break;
         }
